@@ -536,6 +536,51 @@ example : (URL.navigateWith true exBaseMulti (URL.ofText "?".toList)).toText = "
     (URL.navigateWith false exBaseMulti (URL.ofText "?".toList)).toText = "http://a/b/c?tag=x&page=2&tag=y".toList := by
   decide
 
+/-! ### the case of the base's scheme and host does not matter (RFC 3986 6.2.2.1) -/
+
+/-- the base with scheme and host in lower case -/
+def URL.lowerCase (b : URL) : URL := { b with scheme := lower b.scheme, host := lower b.host }
+
+theorem lower_eq_nil (s : Str) : lower s = [] ↔ s = [] := by simp [lower]
+
+/-- navigating from a base gives the same result as navigating from the same base written in lower case, for
+    every reference without scheme and host of its own -/
+theorem navigate_base_case (honour : Bool) (b dest : URL) (hs : dest.scheme = []) (hh : dest.host = []) :
+    URL.navigateWith honour b dest = URL.navigateWith honour b.lowerCase dest := by
+  have hn : ¬ (dest.scheme ≠ [] ∧ dest.host ≠ []) := by simp [hs]
+  unfold URL.navigateWith
+  rw [if_neg hn, if_neg hn]
+  simp [URL.normalize, URL.lowerCase, orStr, hs, hh, lower_idem, lower_eq_nil]
+
+/-- a base with a host and a rooted path of slash-free segments, in ANY case -/
+structure HostBase (b : URL) : Prop where
+  host_ne : b.host ≠ []
+  rooted : ∃ segs, b.parts = [] :: segs
+  noSlash : ∀ s ∈ b.parts, NoSlash s
+
+theorem HostBase.lower {b : URL} (hb : HostBase b) : AbsBase b.lowerCase :=
+  ⟨by simpa [URL.lowerCase, lower_eq_nil] using hb.host_ne, hb.rooted, hb.noSlash,
+    by simp [URL.lowerCase, lower_idem], by simp [URL.lowerCase, lower_idem]⟩
+
+/-- **navigate = RFC 5.2 against the case-normalised base, for bases in any case** (`HTTP://A.Example/B` …):
+    the lower-case hypotheses of `AbsBase` are not needed -/
+theorem navigateWith_eq_rfc_anycase (honour : Bool) (b : URL) (r : Ref) (hb : HostBase b) (hr : RelRef r)
+    (hdf : r.path ≠ [] ∨ DotFree b.parts) (hcq : CanonQ r.query)
+    (hq : honour = true ∨ ¬ (r.path = [] ∧ r.query = some [] ∧ queryText b.query ≠ [])) :
+    (URL.navigateWith honour b (URL.ofRelRef r)).toRef.canon = (resolve b.lowerCase.toRef r).canon := by
+  rw [navigate_base_case honour b (URL.ofRelRef r) (by simp [URL.ofRelRef, URL.ofComponents])
+    (by simp [URL.ofRelRef, URL.ofComponents])]
+  exact navigateWith_eq_rfc honour b.lowerCase r hb.lower hr hdf hcq hq
+
+/-- a base in mixed case -/
+def exBaseCase : URL := URL.ofComponents (some "HTtp".toList) true "Us".toList [] "A.Example".toList false 0
+  "/B/c".toList none none
+example : HostBase exBaseCase ∧ ¬ AbsBase exBaseCase := by
+  refine ⟨⟨by decide, ⟨_, rfl⟩, by decide⟩, fun h => ?_⟩
+  exact absurd h.lowerScheme (by decide)
+example : (URL.navigateWith true exBaseCase (URL.ofText "../D?k".toList)).toText = "http://Us@a.example/D?k".toList := by
+  decide
+
 /-! ### navigate's glue: which component comes from where (any base, any non-replacing reference, either version) -/
 
 /-- the fragment is never inherited: the result carries the reference's fragment (none if it has none) -/
